@@ -35,16 +35,16 @@ func (t *Term) String() string {
 
 // leaves: repo functions not inlined (each has its own local contract rule).
 var termLeaves = map[string]string{
-	modPkg + "canonicalizer.MarshalCanonical":              "JCS",
-	modPkg + "internal/jsoncanonicalizer.Transform":        "Transform",
-	modPkg + "hashing.GetHash":                             "GetHash",
-	modPkg + "hashing.GetHashFromMultihash":                "HashOf",
-	"github.com/multiformats/go-multihash.Encode":          "mhEnc",
-	"github.com/multiformats/go-multihash.Decode":          "mhDec",
-	"(*encoding/base64.Encoding).EncodeToString":           "b64enc",
-	"(*encoding/base64.Encoding).DecodeString":             "b64decode",
-	"encoding/json.Marshal":                                "jsonMarshal",
-	"github.com/go-jose/go-jose/v3/json.Marshal":           "joseMarshal",
+	modPkg + "canonicalizer.MarshalCanonical":       "JCS",
+	modPkg + "internal/jsoncanonicalizer.Transform": "Transform",
+	modPkg + "hashing.GetHash":                      "GetHash",
+	modPkg + "hashing.GetHashFromMultihash":         "HashOf",
+	"github.com/multiformats/go-multihash.Encode":   "mhEnc",
+	"github.com/multiformats/go-multihash.Decode":   "mhDec",
+	"(*encoding/base64.Encoding).EncodeToString":    "b64enc",
+	"(*encoding/base64.Encoding).DecodeString":      "b64decode",
+	"encoding/json.Marshal":                         "jsonMarshal",
+	"github.com/go-jose/go-jose/v3/json.Marshal":    "joseMarshal",
 }
 
 type termer struct {
